@@ -157,6 +157,11 @@ var commitCmd = &cobra.Command{
 				return err
 			}
 		} else {
+			// HEAD may name a branch that does not exist while other branches do (a damaged HEAD file)
+			if client.Head.Commit == nil {
+				return fmt.Errorf("your current branch '%s' does not have any commits yet", client.Head.Reference)
+			}
+
 			// compare last commit with index
 			isDiff, err := isCommitNecessary(client.RootGoitPath, client.Idx, client.Head.Commit)
 			if err != nil {
